@@ -392,7 +392,11 @@ class Tracker:
         # match only against tracks that still have a candidate (a finite cost)
         # in the window; stale tracks cannot be matched, only re-created.
         valid_cols = np.flatnonzero(np.isfinite(cost_matrix).any(axis=0))
-        row_inds, col_inds = matching_method(cost_matrix[:, valid_cols])
+        # likewise a detection without any finite cost (NaN score against every track, e.g. no
+        # visible keypoint) cannot be matched: it stays unmatched and gets a new track.
+        valid_rows = np.flatnonzero(np.isfinite(cost_matrix).any(axis=1))
+        row_inds, col_inds = matching_method(cost_matrix[np.ix_(valid_rows, valid_cols)])
+        row_inds = valid_rows[np.asarray(row_inds, dtype=int)]
         col_inds = valid_cols[np.asarray(col_inds, dtype=int)]
         tracking_scores = [
             -cost_matrix[row, col] for row, col in zip(row_inds, col_inds)
